@@ -431,6 +431,9 @@ pub struct SimSource<'a> {
     pub toks: &'a [TokSpec],
     pub next: usize,
     pub log: &'a Log,
+    /// the source advertises its exact remaining length through `size_hint` (like a slice or Vec
+    /// iterator would); otherwise the default `(0, None)`
+    pub exact_size: bool,
 }
 
 impl<'a> Iterator for SimSource<'a> {
@@ -449,6 +452,15 @@ impl<'a> Iterator for SimSource<'a> {
             self.log.ev(EV_EOF, 0);
             self.log.eof_seen.set(self.log.eof_seen.get() + 1);
             None
+        }
+    }
+
+    fn size_hint(&self) -> (usize, Option<usize>) {
+        if self.exact_size {
+            let n = self.toks.len() - self.next;
+            (n, Some(n))
+        } else {
+            (0, None)
         }
     }
 }
@@ -498,19 +510,62 @@ pub struct CrashLang<'a, L: text2num::LangInterpreter> {
     pub inner: &'a L,
     pub calls: Cell<u64>,
     pub crash_at: u64,
+    /// re-entrancy: every `reenter_every`-th callback makes a nested library call on the same
+    /// thread (0 = never); the nested call must give what it gives on its own
+    pub reenter_every: u64,
+    nested_expected: Option<(String, String)>,
+    pub reentrancy_mismatch: std::rc::Rc<Cell<bool>>,
+    in_nested: Cell<bool>,
+}
+
+const NESTED_WORDS: &str = "3 twenty-one vingt-cinq einundzwanzig ventuno eenentwintig veinte vinte o neuf";
+
+fn nested_calls<L: text2num::LangInterpreter>(l: &L) -> (String, String) {
+    let a = match text2num::text2digits(NESTED_WORDS.split(' ').nth(1).unwrap_or("one"), l) {
+        Ok(s) => s,
+        Err(e) => format!("{e:?}"),
+    };
+    let b = text2num::replace_numbers_in_text(NESTED_WORDS, l, 0.0);
+    (a, b)
 }
 
 impl<'a, L: text2num::LangInterpreter> CrashLang<'a, L> {
     pub fn new(inner: &'a L, crash_at: u64) -> Self {
-        CrashLang { inner, calls: Cell::new(0), crash_at }
+        Self::with_reentry(inner, crash_at, 0, std::rc::Rc::new(Cell::new(false)))
+    }
+    pub fn with_reentry(inner: &'a L, crash_at: u64, reenter_every: u64, flag: std::rc::Rc<Cell<bool>>) -> Self {
+        // what the nested calls give when they are not nested
+        let nested_expected = if reenter_every > 0 { Some(nested_calls(inner)) } else { None };
+        CrashLang {
+            inner,
+            calls: Cell::new(0),
+            crash_at,
+            reenter_every,
+            nested_expected,
+            reentrancy_mismatch: flag,
+            in_nested: Cell::new(false),
+        }
     }
     #[inline]
     fn tick(&self) {
+        if self.in_nested.get() {
+            return;
+        }
         let n = self.calls.get() + 1;
         self.calls.set(n);
         crate::sched::sched_yield(200);
         if n == self.crash_at {
             panic!("injected client crash in caller-supplied interpreter at call {n}");
+        }
+        if self.reenter_every > 0 && n % self.reenter_every == 0 {
+            self.in_nested.set(true);
+            let inner = self.inner;
+            let got = std::panic::catch_unwind(std::panic::AssertUnwindSafe(|| nested_calls(inner)));
+            self.in_nested.set(false);
+            match (got, &self.nested_expected) {
+                (Ok(g), Some(e)) if &g == e => {}
+                _ => self.reentrancy_mismatch.set(true),
+            }
         }
     }
 }
